@@ -766,10 +766,8 @@ pub fn code_block(input: ParseString) -> ParseResult<SectionElement> {
       let ebnf_text = block_src.iter().collect::<String>();
       match parse_grammar(&ebnf_text) {
         Ok(grammar_tree) => {return Ok((input, SectionElement::Grammar(grammar_tree)));},
-        Err(err) => {
-          println!("Error parsing EBNF grammar: {:?}", err);
-          todo!();
-        }
+        // not a valid grammar: keep it as an ordinary (verbatim) code block instead of aborting the parse
+        Err(_) => {return Ok((input, SectionElement::CodeBlock(code_token)));}
       }
     }
     tag => {
